@@ -673,7 +673,6 @@ private:
       throw std::runtime_error("ThreadPool is draining and not accepting new work");
     }
 
-    bool shouldSpawn = false;
     {
       std::unique_lock<std::mutex> lock(_mutex);
       if (_shutdown)
@@ -688,18 +687,15 @@ private:
 
       _tasks.emplace(std::move(f));
 
-      // Check if we should spawn a new thread
+      // Spawn a new thread if below the maximum. The size check and the
+      // registration of the new worker in _threads happen under the same
+      // lock hold, so concurrent submitters cannot both pass the check and
+      // exceed _maxSize.
       if (_threads.size() < _maxSize)
       {
-        shouldSpawn = true;
+        spawnWorkerLocked();
       }
     } // Release mutex here
-
-    // Spawn outside of the lock to avoid deadlock
-    if (shouldSpawn)
-    {
-      spawnWorker();
-    }
 
     _condition.notify_one();
   }
@@ -712,7 +708,6 @@ private:
       return false; // Draining, reject task
     }
 
-    bool shouldSpawn = false;
     {
       std::unique_lock<std::mutex> lock(_mutex);
       if (_shutdown)
@@ -727,24 +722,30 @@ private:
 
       _tasks.emplace(std::move(f));
 
-      // Check if we should spawn a new thread
+      // Spawn a new thread if below the maximum. The size check and the
+      // registration of the new worker in _threads happen under the same
+      // lock hold, so concurrent submitters cannot both pass the check and
+      // exceed _maxSize.
       if (_threads.size() < _maxSize)
       {
-        shouldSpawn = true;
+        spawnWorkerLocked();
       }
     } // Release mutex here
-
-    // Spawn outside of the lock to avoid deadlock
-    if (shouldSpawn)
-    {
-      spawnWorker();
-    }
 
     _condition.notify_one();
     return true;
   }
 
   void spawnWorker()
+  {
+    std::lock_guard<std::mutex> lock(_mutex);
+    spawnWorkerLocked();
+  }
+
+  /// Creates a worker and registers it in _threads. Requires _mutex to be held:
+  /// the worker's first action is to acquire _mutex, so it cannot reach its
+  /// idle-exit path (which looks itself up in _threads) before it is registered.
+  void spawnWorkerLocked()
   {
     std::thread t(
       [this]()
@@ -926,7 +927,6 @@ private:
         #undef VALIDATE_CANARY
       });
 
-    std::lock_guard<std::mutex> lock(_mutex);
     auto threadId = t.get_id();
     _threads.emplace(threadId, std::move(t));
 
